@@ -73,6 +73,8 @@ WITNESSES = [
     ("w:host-getter-raises", "main:\nlocal.p = spawn VProbe\nlocal.q = local.p.vp_failget\nlocal.y = 1\nend\n"),
     ("w:host-setter-raises", "main:\nlocal.p = spawn VProbe\nlocal.p.vp_failset = 3\nlocal.p.vp_ronly = 4\nlocal.p.vp_failset[1] = 2\nend\n"),
     ("w:host-command-raises", "main:\nlocal.p = spawn VProbe\nlocal.p vp_fail 1 2\nlocal.z = local.p vp_failret 1 2 3 4 5 6\nlocal.z = local.p vp_echo 1 2 3 4 5 6\nend\n"),
+    ("w:group-field-nonlistener", "main:\nlevel.t = NIL::\"b\"::game.m\nlevel.t.b = 1\nlocal.y = 2\nend\n"),
+    ("w:group-field-members", "main:\nlocal.a = spawn VProbe \"targetname\" \"grp\"\nlocal.b = spawn VProbe \"targetname\" \"grp\"\n$grp.x = 1\n$grp.vp_failset = 2\n$grp.vp_ronly = 3\nlocal.q = $grp.x\n$grp println 1\nend\n"),
     ("w:self-host-variables", "main:\nself.vp_ronly = 1\nself.vp_failset = 2\nlocal.q = self.vp_wonly\nself.x = 1\nlocal.q = self.x\nself vp_fail\nend\n"),
 ]
 
